@@ -713,13 +713,43 @@ func toLower(s string) String {
 	return unicodeStringFromRunes(r)
 }
 
+// mapWellFormed applies f to the text of s. If s contains unpaired surrogates, f is applied to each maximal
+// well-formed run and the unpaired surrogates are kept as they are (a Go string cannot represent them).
+func (s unicodeString) mapWellFormed(f func(string) String) String {
+	var sb StringBuilder
+	start := 1
+	for i := 1; i < len(s); i++ {
+		c := s[i]
+		if isUTF16FirstSurrogate(c) && i+1 < len(s) && isUTF16SecondSurrogate(s[i+1]) {
+			i++
+			continue
+		}
+		if isUTF16FirstSurrogate(c) || isUTF16SecondSurrogate(c) {
+			if i > start {
+				sb.WriteString(f(string(utf16.Decode(s[start:i]))))
+			}
+			sb.WriteRune(rune(c))
+			start = i + 1
+		}
+	}
+	if start == 1 {
+		return f(s.String())
+	}
+	if len(s) > start {
+		sb.WriteString(f(string(utf16.Decode(s[start:]))))
+	}
+	return sb.String()
+}
+
 func (s unicodeString) toLower() String {
-	return toLower(s.String())
+	return s.mapWellFormed(toLower)
 }
 
 func (s unicodeString) toUpper() String {
 	caser := cases.Upper(language.Und)
-	return newStringValue(caser.String(s.String()))
+	return s.mapWellFormed(func(str string) String {
+		return newStringValue(caser.String(str))
+	})
 }
 
 func (s unicodeString) Export() interface{} {
